@@ -180,6 +180,8 @@ def run_impl(case):
         for i, r in enumerate(case["data"]):
             np.random.seed(seed_of(case, i))
             x, poison = feed(case, [r], m)
+            if i == 0 and case.get("int_first"):
+                x, poison = [[int(v) for v in r]], (lambda: None)     # an integer-typed first sample (Python ints), floats afterwards
             kls, boot = one_call(det, det.update, x)
             ds, tot, sin = lifecycle_obs(det)
             pc = public_counts(det)
@@ -776,6 +778,10 @@ def gen_cases(ctx):
             # place right after the call (a caller re-using its buffer)
             c["input"] = rng.choice(["array", "array", "df", "df_poison", "df_poison", "array_poison"])
             bump("input", c["input"])
+            if c["kind"] == "stream" and not c["input"].startswith("df") and rng.random() < 0.4:
+                c["int_first"] = True
+                c["data"] = [[float(round(v)) for v in c["data"][0]]] + [list(r) for r in c["data"][1:]]
+                bump("input", "int_first")
             for key in ("window_size", "persistence", "alpha", "bootstrap_samples", "count_ubound"):
                 if key in c["params"]:
                     bump(key, c["params"][key])
